@@ -288,8 +288,38 @@ def run_c16(facts, rep):
                 bad.append(r)
             elif verdict == "unknown":
                 unknown.append(r)
-        adv = [x for x in walk(body) if x.get("k") == "AssignOp" and x.get("op", "").startswith("+") and
-               strip(x["lhs"]).get("k") == "Field" and strip(x["lhs"]).get("name") == "buffer_current"]
+        # the cursor's new value is the end of the source range just copied (symbolic: `cur += len`, `cur = cur + len`,
+        # `cur = source_end` with source_end = cur + len are the same polynomial)
+        from r_slotmod import Sym, padd, patom, pshow
+        sym = Sym(facts, body)
+        src_end = src_start = None
+        for x in walk(body):
+            if x.get("k") == "MCall" and x.get("name") == "copy_from_slice" and x["args"]:
+                for y in walk(x["args"][0]):
+                    if y.get("k") == "Index" and strip(y["e"]).get("k") == "Field" and strip(y["e"]).get("name") == "buffer":
+                        r_ = strip(y["i"])
+                        if r_.get("k") == "Struct":
+                            d_ = {f["name"]: f["e"] for f in r_["fields"]}
+                            src_start, src_end = sym.poly(d_.get("start")), sym.poly(d_.get("end"))
+        adv = []
+        adv_bad = None
+        for x in walk(body):
+            if x.get("k") in ("AssignOp", "Assign") and strip(x["lhs"]).get("k") == "Field" and \
+                    strip(x["lhs"]).get("name") == "buffer_current":
+                rhs = sym.poly(x["rhs"])
+                cur = sym.poly(x["lhs"])
+                if x["k"] == "AssignOp" and not x.get("op", "").startswith("+"):
+                    continue
+                new = (padd(cur, rhs) if x["k"] == "AssignOp" else rhs) if isinstance(rhs, dict) and isinstance(cur, dict) else None
+                if isinstance(new, dict) and not new:
+                    continue                         # reset to 0 on refill
+                if isinstance(new, dict) and isinstance(src_end, dict) and isinstance(src_start, dict):
+                    if not padd(new, src_end, -1) and not padd(src_start, cur, -1):
+                        adv.append(x)
+                    else:
+                        adv_bad = (x, new)
+                elif x["k"] == "AssignOp":
+                    adv.append(x)
         if not refills:
             rep.violation(R + "(chunk)", "fill_bytes/refill", "fill_bytes never refills the buffer", facts.loc(p))
         elif bad:
@@ -299,6 +329,10 @@ def run_c16(facts, rep):
         elif unknown:
             rep.unresolved(R + "(chunk)", "fill_bytes/refill", "refill condition at line %s is not one of the modelled forms" %
                            unknown[0].get("l"), facts.loc(p, unknown[0]))
+        elif adv_bad is not None:
+            rep.violation(R + "(chunk)", "fill_bytes/advance", "after copying buffer[%s..%s] fill_bytes sets the cursor to %s: bytes "
+                          "are skipped or handed out twice" % (pshow(src_start), pshow(src_end), pshow(adv_bad[1])),
+                          facts.loc(p, adv_bad[0]))
         elif not adv:
             rep.violation(R + "(chunk)", "fill_bytes/advance", "fill_bytes does not advance the cursor by the copied length", facts.loc(p))
         else:
@@ -324,8 +358,12 @@ def run_c16(facts, rep):
                 if any((root_local(a) or (None,))[0] in rng_lid for a in args):
                     if tree.enclosing(x, ("Closure",)) is None:
                         draws.append(x)
-        comp_loops = [f for f in walk(body) if f.get("k") == "For" and any(
-            y.get("k") == "Path" and "modulus_size" in y.get("name", "") for y in defs.closure(f["iter"]))]
+        def _space(f):
+            return {y.get("name") for y in defs.closure(f["iter"]) if y.get("k") == "MCall"}
+        # the loop over RNS components: its iteration space comes from coeff_modulus() (its length or its elements), not
+        # from the ring degree
+        comp_loops = [f for f in walk(body) if f.get("k") == "For" and "coeff_modulus" in _space(f)
+                      and "poly_modulus_degree" not in _space(f)]
         inside = [d for d in draws if any(any(z is d for z in walk(f["body"])) for f in comp_loops) and
                   not any(any(z is d for z in walk(g["body"])) for g in walk(body) if g.get("k") == "For" and g not in comp_loops
                           and any(any(zz is g for zz in walk(f["body"])) for f in comp_loops))]
@@ -362,10 +400,11 @@ def run_c16(facts, rep):
                         lits = [strip(a).get("v") for a in comp[0]["args"]]
                         out.append((tuple(lits), strip(x["args"][0]).get("v")))
             return out
-        aw, ar = seed_addr(facts.hir[w]), seed_addr(facts.hir[rd])
+        wb, rb = facts.inlined(w), facts.inlined(rd)         # `stored_seed()`-style helpers are read in place
+        aw, ar = seed_addr(wb), seed_addr(rb)
         def uses_sizeof(body):
             return any((callee(y) or {}).get("name") == "size_of" and "PRNGSeed" in str((callee(y) or {}).get("targs")) for y in walk(body))
-        if aw and aw == ar and uses_sizeof(facts.hir[w]) and uses_sizeof(facts.hir[rd]):
+        if aw and aw == ar and uses_sizeof(wb) and uses_sizeof(rb):
             rep.ok(R + "(seedrt)", "address", "seed stored and read at component %s word offset %s, size_of::<PRNGSeed>() bytes" %
                    (aw[0][0], aw[0][1]), facts.loc(rd), sample={"writer": aw, "reader": ar})
         else:
@@ -378,6 +417,33 @@ def run_c16(facts, rep):
             rep.ok(R + "(seedrt)", "expander", "expand_seed samples c1 with uniform(from_seed(stored seed))", facts.loc(rd))
         else:
             rep.violation(R + "(seedrt)", "expander", "expand_seed does not regenerate c1 from the stored seed", facts.loc(rd))
+
+
+def _param_kind_from_callers(facts, p, pname, depth=0):
+    """kind of the generator a private helper receives in parameter `pname`: the common kind over all its call sites"""
+    if depth > 2:
+        return None
+    it = facts.items[p]
+    idx = [j for j, q in enumerate(it["params"]) if q["pat"].get("k") == "PBind" and q["pat"]["name"] == pname]
+    if not idx:
+        return None
+    found = []
+    for caller in facts.callers_of(p):
+        if caller not in facts.hir:
+            continue
+        kc = kinds(facts, caller)
+        for x in walk(facts.hir[caller]):
+            f = callee(x)
+            if x.get("k") in ("Call", "MCall") and f and target_key(f) == p:
+                args = ([x["recv"]] if x["k"] == "MCall" else []) + x["args"]
+                if idx[0] < len(args):
+                    kk = expr_kind(facts, args[idx[0]], kc)
+                    if kk and kk[0] == "param" and facts.items[caller].get("vis") != "pub":
+                        kk = _param_kind_from_callers(facts, caller, kk[1], depth + 1) or kk
+                    found.append(kk[0] if kk else "unknown")
+    if found and all(x == found[0] for x in found):
+        return (found[0], "handed down by %d caller(s)" % len(found))
+    return None
 
 
 def run_noise(facts, rep):
@@ -397,6 +463,8 @@ def run_noise(facts, rep):
             n += 1
             rep.fn(p)
             kind = rng_arg_kind(facts, c, k)
+            if kind and kind[0] == "param" and facts.items[p].get("vis") != "pub":
+                kind = _param_kind_from_callers(facts, p, kind[1]) or kind
             key = "%s/noise#%d" % (p, j)
             if kind and kind[0] == "entropy":
                 rep.ok(R, key, "the error polynomial is drawn from a generator created from entropy in this call", facts.loc(p, c))
